@@ -7,19 +7,20 @@ EXTENDS SliceSelAbs, Json, IOUtils
 Data == JsonDeserialize(IOEnv.TRACE_FILE)
 Traces == Data.traces
 
-VARIABLES tid, l, sel
-tvars == <<tid, l, sel>>
+VARIABLES tid, l, sel,
+          seen      \* per length n the index list this selector reported first: later reports for the same n must be the same list
+tvars == <<tid, l, sel, seen>>
 
 V(x) == IF Len(x) = 0 THEN NoneV ELSE x[1]
 Ev == Traces[tid][l]
 More == l <= Len(Traces[tid])
 
-TInit == tid \in 1..Len(Traces) /\ l = 1 /\ sel = [kind |-> "none"]
+TInit == tid \in 1..Len(Traces) /\ l = 1 /\ sel = [kind |-> "none"] /\ seen = <<>>
 
 NewSlice == /\ More /\ Ev.op = "new_slice"
-            /\ sel' = [kind |-> "slice", a |-> V(Ev.a), b |-> V(Ev.b), c |-> V(Ev.c)]
+            /\ sel' = [kind |-> "slice", a |-> V(Ev.a), b |-> V(Ev.b), c |-> V(Ev.c)] /\ seen' = <<>>
 NewSample == /\ More /\ Ev.op = "new_sample" /\ Ev.N >= 1
-             /\ sel' = [kind |-> "sample", N |-> Ev.N]
+             /\ sel' = [kind |-> "sample", N |-> Ev.N] /\ seen' = <<>>
 
 (* the abstract answer: for a slice it is unique, for a sample any spread satisfying SampleAbs *)
 IdxOK(n, r) == IF sel.kind = "slice" THEN r = PySliceAny(sel.a, sel.b, sel.c, n)
@@ -28,10 +29,16 @@ CountOK(n, r) == IF sel.kind = "slice" THEN r = PyCountAny(sel.a, sel.b, sel.c, 
 FirstOK(n, r) == IF sel.kind = "slice" THEN (PyCountAny(sel.a, sel.b, sel.c, n) > 0 => r = PySliceAny(sel.a, sel.b, sel.c, n)[1])
                  ELSE (n > 0 => r = 0)
 
-Indices == More /\ Ev.op \in {"indices", "gen_indices"} /\ sel.kind # "none" /\ IdxOK(Ev.n, Ev.r) /\ UNCHANGED sel
-Count   == More /\ Ev.op = "count" /\ sel.kind # "none" /\ CountOK(Ev.n, Ev.r) /\ UNCHANGED sel
-First   == More /\ Ev.op = "first" /\ sel.kind # "none" /\ FirstOK(Ev.n, Ev.r) /\ UNCHANGED sel
-Done    == ~More /\ UNCHANGED sel
+(* "the generated indices and the index list agree with each other": a sample admits several valid spreads, but one selector must
+   report ONE of them for a given length, through indices() and gen_indices() alike.  seen is a sequence of <<n, list>> pairs. *)
+SeenFor(n) == {k \in 1..Len(seen) : seen[k][1] = n}
+Indices == /\ More /\ Ev.op \in {"indices", "gen_indices"} /\ sel.kind # "none" /\ IdxOK(Ev.n, Ev.r)
+           /\ IF SeenFor(Ev.n) = {} THEN seen' = Append(seen, <<Ev.n, Ev.r>>)
+              ELSE (\A k \in SeenFor(Ev.n) : seen[k][2] = Ev.r) /\ UNCHANGED seen
+           /\ UNCHANGED sel
+Count   == More /\ Ev.op = "count" /\ sel.kind # "none" /\ CountOK(Ev.n, Ev.r) /\ UNCHANGED <<sel, seen>>
+First   == More /\ Ev.op = "first" /\ sel.kind # "none" /\ FirstOK(Ev.n, Ev.r) /\ UNCHANGED <<sel, seen>>
+Done    == ~More /\ UNCHANGED <<sel, seen>>
 
 TNext == \/ (NewSlice \/ NewSample \/ Indices \/ Count \/ First) /\ l' = l + 1 /\ UNCHANGED tid
          \/ Done /\ UNCHANGED <<tid, l>>
